@@ -254,15 +254,25 @@ func walSyncCfg(on bool) record.LogWriterConfig {
 // SyncRecord and the harness waits for the sync (and for the flush loop to finish the iteration, so
 // that the next chunk header carries the new synced offset) before handing over the next record.
 func writeLog(format int, logNum uint32, tag uint32, sizes []int) (img *logImg, err error) {
+	recs := make([][]byte, len(sizes))
+	for i, s := range sizes {
+		recs[i] = content(tag, i, s)
+	}
+	return writeRecs(format, logNum, recs)
+}
+
+// writeRecs is writeLog for given record payloads.
+func writeRecs(format int, logNum uint32, recs [][]byte) (img *logImg, err error) {
 	defer func() {
 		if r := recover(); r != nil {
 			err = fmt.Errorf("writer panic: %v", r)
 		}
 	}()
-	img = &logImg{Format: format, LogNum: logNum, Sizes: append([]int(nil), sizes...)}
-	for i, s := range sizes {
-		img.Recs = append(img.Recs, content(tag, i, s))
+	img = &logImg{Format: format, LogNum: logNum, Recs: recs}
+	for _, p := range recs {
+		img.Sizes = append(img.Sizes, len(p))
 	}
+	sizes := img.Sizes
 	f := &memFile{}
 	switch format {
 	case fLegacy:
@@ -344,11 +354,12 @@ var slotPool = sync.Pool{New: func() any { return &readerSlot{buf: make([]byte, 
 
 // readRes is what the real reader made of an image.
 type readRes struct {
-	N     int    // records returned complete and byte-identical to want[0..N)
-	Err   error  // the error that ended the log
-	Bad   string // non-empty: the reader returned something that is not the next expected record
-	Panic string
-	Calls int
+	N       int    // records returned complete and byte-identical to want[0..N)
+	Err     error  // the error that ended the log
+	Bad     string // non-empty: the reader returned something that is not the next expected record
+	Partial bool   // Bad, and what was returned is a strict prefix of the expected record
+	Panic   string
+	Calls   int
 }
 
 func errClass(err error) string {
@@ -439,6 +450,9 @@ func readLog(src io.Reader, logNum uint32, want [][]byte, verbose bool) (res rea
 				d++
 			}
 			res.Bad = fmt.Sprintf("record %d differs from the written one: got %d bytes, want %d, first difference at %d", res.N, len(buf), len(want[res.N]), d)
+			if d == len(buf) {
+				res.Partial = true // a strict prefix of the written record
+			}
 			return res
 		}
 		res.N++
